@@ -179,6 +179,13 @@ def run(ck: Check):
                     ck.obligation(f"correspondence:trace-accepted:scenario{sc['id']}-{tp[0]}-{tp[1]}", False,
                                   f"model rejects event #{v - 1}: {tr[v - 1] if v - 1 < len(tr) else None}; "
                                   f"context {tr[max(0, v - 8):v + 1]}")
+                    # the rejected history is the concrete failing input: the scenario replays it on the real code
+                    ck.violation(f"the real consumer group did something the offsets model (whose guards are the "
+                                 f"property's clauses) does not allow: partition {tp[0]}-{tp[1]} of scenario {sc['id']}, "
+                                 f"event #{v - 1} {tr[v - 1] if v - 1 < len(tr) else None} after {tr[max(0, v - 6):v - 1]}",
+                                 {"scenario": sc, "partition": list(tp), "rejected_event_index": v - 1,
+                                  "context": tr[max(0, v - 8):v + 1]},
+                                 signature=f"trace-rejected:{(tr[v - 1] if v - 1 < len(tr) else '').split(' ')[0]}")
     ck.obligation("correspondence:all-partition-traces-accepted-by-model", rejected == 0 and fail == 0,
                   f"{rejected} rejected, {fail} case files failed")
     ck.cov["traces_validated_against_impl"] = len(traces) - rejected
